@@ -280,6 +280,8 @@ def call(ev, name, args, kwargs, lineno, env):
             return ObjList(list(a))
         if is_scalar(a):
             return a          # 0-d array: behaves like the scalar in the arithmetic that follows
+        if hasattr(a, "getitem") and hasattr(a, "tag"):
+            return a          # opaque array-like stand-in supplied by a contract
         raise Unsupported("np.array of %r" % (a,))
     if name in ("max", "min"):
         a = args[0]
